@@ -44,6 +44,8 @@ def kinds_mixed(o, s):
     ob = [w for w in o.split() if w.startswith("ob=")]
     if not ob or ob[0][3:] == "-":
         return False
+    if " mk=1 " in s:   # a key column mixed kinds before HAVING removed rows (the engine sorts first)
+        return True
     keys = [k.split(":")[0] for k in ob[0][3:].split(",")]
     s2 = s.split(" ", 1)[1] if s.startswith("limit=") else s
     cs = cols(s2).split(",")
